@@ -89,13 +89,14 @@ def gen_writer_session(rng, thorough=False, with_extra=True, version=None, fmt=N
     return {"header": h, "ops": ops}
 
 
-def run_writer_session(sess, stream=None):
-    """executes on laspy; returns (outs, final bytes, per-op (bytes_before == bytes_after) flags, stream)"""
+def run_writer_session(sess, stream=None, via="class"):
+    """executes on laspy; returns (outs, final bytes, per-op (bytes_before == bytes_after) flags, stream).
+    via="open": the writer is obtained from laspy.open(mode="w") instead of the LasWriter constructor (round 5)"""
     import laspy
     bio = stream if stream is not None else io.BytesIO()
     h = sess["header"]
     try:
-        w = laspy.LasWriter(bio, h, closefd=False)
+        w = laspy.open(bio, mode="w", header=h, closefd=False) if via == "open" else laspy.LasWriter(bio, h, closefd=False)
     except Exception as ex:
         return (["open-err:" + common.exc_kind(ex)], bio.getvalue(), [], bio)
     outs, unchanged = [], []
@@ -776,3 +777,199 @@ def leak_kind(r, i):
         return "foreign-format chunk not refused: same id and record size, other " + {"elements-same-width": "element count", "type-same-width": "element type",
                                                                                       "description": "description", "scaling": "scaling", "name": "name", "order": "order of the extra dimensions"}[how]
     return "chunk of another point format / after finish not refused (aliasing session)"
+
+
+# =====================================================================================================================
+# round 5 (added; nothing above is changed): SPECIAL VALUES of the header statistics (chunks lying exactly on the origin, on
+# one axis, all-equal coordinates, extrema attained only in the first / a middle / the last chunk, boxes that do not contain the
+# origin, chunks whose return numbers are all zero / all one value) and SIZE thresholds (one write_points call with more than
+# 2^20 points, records whose length is an exact multiple of 65536, strided records of such lengths)
+# =====================================================================================================================
+AXIS_SCALINGS = [  # (scale, offset, the stored integer whose scaled coordinate is EXACTLY 0.0; None when there is none worth having)
+    (0.01, 0.0, 0), (1.0, 0.0, 0), (0.001, 0.0, 0), (0.5, 10.0, -20), (0.25, -3.0, 12), (2.0, 1e9, -500000000), (1.0, -7.0, 7),
+    (0.125, 1.0, -8), (0.01, 123456.789, None), (7.0, -1e9, None),
+]
+
+STAT_PLACEMENTS = ["origin", "axis0", "axis1", "axis2", "all-equal", "box+", "box-", "around", "extreme-hi", "extreme-lo", "empty"]
+
+STAT_PLANS = [
+    ("origin", "box+"), ("origin", "box-"), ("origin", "origin", "box+"), ("origin", "empty", "box-"), ("box+", "origin"),
+    ("box+", "origin", "box-"), ("origin",), ("origin", "origin"), ("origin", "axis1"), ("axis0", "axis1", "axis2"), ("axis2", "box+"),
+    ("origin", "axis0", "box-"), ("all-equal", "all-equal"), ("all-equal", "box+"), ("origin", "all-equal"),
+    ("extreme-hi", "around", "around"), ("around", "extreme-hi", "around"), ("around", "around", "extreme-hi"),
+    ("extreme-lo", "around", "around"), ("around", "extreme-lo", "around"), ("around", "around", "extreme-lo"),
+    ("box+", "box+"), ("box-", "box+"), ("box+", "box-", "origin"), ("empty", "origin", "box+"), ("origin", "box+", "empty", "box-"),
+]
+
+_I32 = (-2 ** 31, 2 ** 31 - 1)
+
+
+def place_coordinates(rng, kind, n, zero):
+    """three columns of n stored integers for one chunk; zero[k] = the stored integer of axis k whose scaled value is exactly 0.0"""
+    lo, hi = _I32
+
+    def cl(v):
+        return max(lo, min(hi, int(v)))
+    if kind == "origin":
+        return [[z] * n for z in zero]
+    if kind.startswith("axis"):
+        k = int(kind[4])
+        cols = [[z] * n for z in zero]
+        sgn = rng.choice([-1, 1])
+        cols[k] = [cl(zero[k] + sgn * rng.randrange(1, 100000)) for _ in range(n)]
+        return cols
+    if kind == "all-equal":
+        c = rng.choice([1, -1, 12345, -99999, hi, lo, 0])
+        return [[c] * n for _ in range(3)]
+    if kind == "box+":
+        a = rng.choice([1, 2, 1000, 10 ** 6])
+        return [[cl(z + a + rng.randrange(0, 500)) for _ in range(n)] for z in zero]
+    if kind == "box-":
+        a = rng.choice([1, 2, 1000, 10 ** 6])
+        return [[cl(z - a - rng.randrange(0, 500)) for _ in range(n)] for z in zero]
+    if kind in ("extreme-hi", "extreme-lo"):
+        cols = [[cl(z + rng.randrange(-50, 51)) for _ in range(n)] for z in zero]
+        for k in range(3):
+            cols[k][rng.randrange(n)] = (hi if kind == "extreme-hi" else lo) if rng.random() < 0.5 else cl(zero[k] + (10 ** 8 if kind == "extreme-hi" else -10 ** 8))
+        return cols
+    return [[cl(z + rng.randrange(-50, 51)) for _ in range(n)] for z in zero]      # "around": a box that contains the origin
+
+
+def gen_stat_session(rng, thorough=False, version=None, fmt=None):
+    """a writer session (same shape as gen_writer_session) whose chunks are PLACED: see STAT_PLANS. The scaling of every axis is one
+    for which some stored integer is mapped to exactly 0.0, so that 'the running box is all zeros although points were counted',
+    'the box does not contain the origin', 'the extremum is only in the k-th chunk' are all hit on purpose."""
+    import laspy
+    h = lasio.rand_header(rng, version=version, fmt=fmt)
+    if rng.random() < 0.15:
+        lasio.add_extra_dims(rng, h)
+    if rng.random() < 0.5:
+        axes = [rng.choice(AXIS_SCALINGS[:3])] * 3
+    else:
+        axes = [rng.choice(AXIS_SCALINGS) for _ in range(3)]
+    h.scales = np.array([a[0] for a in axes], dtype=np.float64)
+    h.offsets = np.array([a[1] for a in axes], dtype=np.float64)
+    zero = [0 if a[2] is None else a[2] for a in axes]
+    if rng.random() < 0.75:
+        plan = list(rng.choice(STAT_PLANS))
+    else:
+        plan = [rng.choice(STAT_PLACEMENTS) for _ in range(rng.randrange(2, 5 if not thorough else 8))]
+    mask = 0x0F if h.point_format.id >= 6 else 0x07
+    ops, note = [], []
+    for kind in plan:
+        if kind == "empty":
+            ops.append(("P", lasio.rand_points(rng, h, 0), True))
+            note.append({"placement": "empty"})
+            continue
+        n = rng.choice([1, 1, 2, 5, 17])
+        rec = lasio.rand_points(rng, h, n)
+        cols = place_coordinates(rng, kind, n, zero)
+        for k, nm in enumerate("XYZ"):
+            rec.array[nm] = np.array(cols[k], dtype=np.int32)
+        rk = rng.choice(["as-is", "as-is", "all-zero", "all-one-value", "all-highest", "mixed"])
+        bf = np.array(rec.array["bit_fields"], dtype=np.uint8)
+        if rk == "all-zero":
+            bf = bf & np.uint8(0xFF ^ mask)
+        elif rk == "all-one-value":
+            bf = (bf & np.uint8(0xFF ^ mask)) | np.uint8(rng.randrange(1, mask + 1))
+        elif rk == "all-highest":
+            bf = bf | np.uint8(mask)
+        elif rk == "mixed":
+            bf = (bf & np.uint8(0xFF ^ mask)) | np.array([rng.choice([0, 1, 2, 5, 6, mask]) & mask for _ in range(n)], dtype=np.uint8)
+        rec.array["bit_fields"] = bf
+        entry = {"placement": kind, "returns": rk, "X": [int(v) for v in cols[0]], "Y": [int(v) for v in cols[1]], "Z": [int(v) for v in cols[2]]}
+        if n == 1 and rng.random() < 0.25:
+            rec = rec[0]
+            entry["as"] = "0-d record"
+        ops.append(("P", rec, True))
+        note.append(entry)
+    if h.version.minor >= 4 and rng.random() < 0.25:
+        ops.append(("E", laspy.vlrs.vlrlist.VLRList([lasio.rand_vlr(rng, 40)])))
+    ops.append(("C",))
+    return {"header": h, "ops": ops,
+            "note": {"scales": [float(x) for x in h.scales], "offsets": [float(x) for x in h.offsets], "stored integer mapped to 0.0": zero, "chunks": note}}
+
+
+def bulk_records(seed, n, pf, stride=1):
+    """n records of point format pf with pseudo-random bytes (numpy generator: the volume is too large for the rng of the run);
+    stride > 1: a NON-contiguous record of n points (every stride-th of a larger one)"""
+    import laspy
+    g = np.random.default_rng(seed)
+    size = int(pf.size)
+    total = n * abs(stride)
+    raw = g.integers(0, 256, size=total * size, dtype=np.uint8)
+    rec = laspy.PackedPointRecord(raw.view(pf.dtype()), pf)
+    if stride != 1:
+        rec = rec[::stride]
+    return rec
+
+
+def size_partitions(rng, n):
+    """partitions of n points around the thresholds: blocks of 65536, 2^20, a call with more than 2^20 points"""
+    B = 1 << 20
+    out = [("chunks of 65536 (+ the remainder)", [65536] * (n // 65536) + ([n % 65536] if n % 65536 else []))]
+    if n > B:
+        out.append(("2^20 then the rest", [B, n - B]))
+        out.append(("the rest then 2^20", [n - B, B]))
+        if n - 1 > B:
+            out.append(("all but one, then one", [n - 1, 1]))
+    k = rng.randrange(1, n) if n > 1 else 1
+    out.append(("two chunks at a random cut", [k, n - k] if n > 1 else [n]))
+    if n > 65536:
+        out.append(("65535, 65537, the rest", [65535, 65537, n - 131072] if n > 131072 else [65535, n - 65535]))
+    return out
+
+
+def size_session(rng, n, version, fmt, nparts=2, stride=1, tmpdir=None):
+    """the SAME n points written (1) by one write_points call on a LasWriter, (2) by LasData.write, (3..) in the chunks of some
+    partitions through laspy.open(mode='w'); stride != 1: the one-shot record is a strided (non-contiguous) selection, the chunks
+    are contiguous copies. Returns the description and the files; the property: all the files are the same bytes."""
+    import laspy
+    h = lasio.rand_header(rng, version=version, fmt=fmt, nvlrs=rng.choice([0, 1]))
+    seed = rng.randrange(2 ** 32)
+    rec = bulk_records(seed, n, h.point_format, stride)
+    flat = rec if stride == 1 else laspy.PackedPointRecord(np.ascontiguousarray(rec.array), h.point_format)
+    desc = {"version": str(h.version), "format": h.point_format.id, "points": n, "record_size": int(h.point_format.size), "numpy_seed": seed,
+            "stride_of_the_one_shot_record": stride,
+            "reproduce": "g = numpy.random.default_rng(numpy_seed); raw = g.integers(0, 256, size=points*abs(stride)*record_size, dtype=uint8); "
+                         "rec = PackedPointRecord(raw.view(fmt.dtype()), fmt)[::stride]; header: default LasHeader(version, format) is enough"}
+    files = []          # per route: label, error, the first 400 bytes, the length, whether the bytes are those of the first route
+    base = [None]
+
+    def run(label, fn):
+        dest = io.BytesIO()
+        try:
+            fn(dest)
+        except Exception as ex:
+            files.append({"label": label, "error": f"{type(ex).__name__}: {ex}"})
+            return
+        b = dest.getvalue()
+        if base[0] is None:
+            base[0] = (label, b)
+        same = b == base[0][1]
+        diff = None
+        if not same:
+            o = base[0][1]
+            m = min(len(b), len(o))
+            neq = np.nonzero(np.frombuffer(b, dtype=np.uint8, count=m) != np.frombuffer(o, dtype=np.uint8, count=m))[0]
+            diff = int(neq[0]) if len(neq) else m
+        files.append({"label": label, "error": None, "head": b[:400], "length": len(b), "same": same, "first_diff": diff, "base": base[0][0],
+                      "base_head": base[0][1][:400], "base_length": len(base[0][1])})
+
+    def one_call(dest):
+        w = laspy.LasWriter(dest, h, closefd=False)
+        w.write_points(rec)
+        w.close()
+    run(f"one write_points call of {n} points (LasWriter)", one_call)
+    run(f"LasData(header, points).write of {n} points", lambda dest: laspy.LasData(copy.deepcopy(h), points=rec).write(dest))
+    parts = size_partitions(rng, n)
+    keep = [parts[0]] + rng.sample(parts[1:], min(len(parts) - 1, max(0, nparts - 1)))
+    for label, sizes in keep:
+        def chunked(dest, sizes=sizes):
+            with laspy.open(dest, mode="w", header=h, closefd=False) as w:
+                pos = 0
+                for k in sizes:
+                    w.write_points(flat[pos:pos + k])
+                    pos += k
+        run(f"laspy.open(mode='w'), {len(sizes)} write_points calls: {label} {sizes if len(sizes) <= 6 else str(sizes[:3])[:-1] + ', ...]'}", chunked)
+    return {"desc": desc, "files": files, "count_field": (247, 8) if h.version.minor >= 4 else (107, 4), "n": n}
